@@ -65,7 +65,7 @@ CHECKS = {
             "BOUNDED, not proved: complete for the stated sizes (all real end-points, all t, all k) and sampled beyond. No loop invariant for the Bubenik-Dlotko sweep is within reach of the VC generator (k-th largest over a positionally mutated bag), so no contract-level proof is claimed. Proved for all inputs only: the constructor uses dgms[hom_deg]. The known repeated-bar shortcut defect is attributed by a trace that requires every execution of the shortcut to be matched by a bar genuinely repeated in the work list.",
             "CPython + pysym proxies; z3; sizes bounded (3 bars exhaustive); slopes of landscape functions in {-1,0,1} used to keep queries linear"),
     "C08": ("other",
-            "contracts on death_vector, PersistenceLandscaper.transform and PersLandscapeApprox.__init__ (diagram of the requested degree, finite bars only via mask-indexing facts, grid ends given-or-derived as min birth / max finite death) (VCs from the AST, modular compute_landscape) + bounded-symbolic execution (E2) of the real PersLandscapeApprox.compute_landscape on proxy reals for <=2 bars x <=6 nodes with the half-step bound checked per path by z3; run-time grids up to 50 nodes",
+            "contracts on death_vector, PersistenceLandscaper.transform and PersLandscapeApprox.__init__ (diagram of the requested degree, finite bars only via mask-indexing facts, grid ends given-or-derived as min birth / max finite death) and vectorize (every depth sampled at the nodes of the given-or-derived grid through the np.interp contract; loop invariant over depths) (VCs from the AST, modular compute_landscape) + bounded-symbolic execution (E2) of the real PersLandscapeApprox.compute_landscape on proxy reals for <=2 bars x <=6 nodes with the half-step bound checked per path by z3; run-time grids up to 50 nodes",
             "Mixed: proved for all inputs - death vector = deaths sorted non-increasingly with multiplicity (sorted() as contract D12), rejection of hom_deg != 0, the transformer returns exactly the values (flattened on request) of the approximate landscape built from its grid parameters and leaves its state untouched. Bounded - the half-step bound and exactness on grid end-points.",
             "D12 sorted, D13 interp, D14 linspace; L10 (snapping <= step/2, k-th largest 1-Lipschitz) paper argument; E2 bounds; known finding: 'empty' sentinel"),
     "C09": ("other",
